@@ -17,7 +17,7 @@ lane() {
     prop=$(echo $id | cut -d- -f1)
     rm -f seeded/$id/results.json
     extra=""
-    case $id in C03-b) extra="C06";; C07-b|C02-b) extra="C02 C07";; C14-b) extra="C02";; C05-b|C05-d) extra="C06";; C07-c) extra="C01";; C05-c|C20-c|C06-f|C03-g) extra="C16";; esac
+    case $id in C03-b) extra="C06";; C07-b|C02-b) extra="C02 C07";; C14-b) extra="C02";; C05-b|C05-d) extra="C06";; C07-c) extra="C01";; C05-c|C20-c|C06-f|C03-g) extra="C16";; C01-h) extra="C18";; esac
     echo "$id: $(./tools/eval_seeded.py $id --in $W $prop $extra 2>&1 | tail -3 | cut -c1-150 | tr '\n' '|')"
   done
   git -C /repo worktree remove --force $W
